@@ -516,9 +516,9 @@ func (c *c20Ctx) send(ctx context.Context, msg lnwire.Message,
 type c20Outcome int
 
 const (
-	c20Done      c20Outcome = iota // result delivered
-	c20Stashed                     // parked in the premature-update cache
-	c20TimedOut                    // neither within the deadline
+	c20Done     c20Outcome = iota // result delivered
+	c20Stashed                    // parked in the premature-update cache
+	c20TimedOut                   // neither within the deadline
 )
 
 // await waits for the result of p. Channel updates for an unknown channel
